@@ -140,6 +140,17 @@ class C04(Check):
             return 'violation', dict(det, observed=r)
         out = dense.from_impl(r['value'])
         det['observed_value'] = r['value']
+        # the implementation-layer model of the whole visitor (DenseVisitor.deval, proved against rhoZ for signals that start
+        # at 0: C04_visitor) must return the same list, sample for sample — also where the semantics is missed (late starts)
+        if len(mlines) > 2 and mlines[2].startswith('DEVAL'):
+            got = [[t, v] for t, v in out if t != math.inf]
+            if mlines[2] == 'DEVAL NONE':
+                return 'violation', dict(det, kind='list', expected={'source': 'DenseVisitor.deval: an exception'}, observed={'samples_ticks': got})
+            dv = [[int(x.split(':')[0]), fml.parse_val(x.split(':')[1])] for x in mlines[2].split()[1:]]
+            if [[float(t), float(v)] for t, v in dv] != [[float(t), float(v)] for t, v in got]:
+                return 'violation', dict(det, kind='list', expected={'source': 'DenseVisitor.deval: the sample list the visitors build', 'samples_ticks': [[t, fml.val_sx(v)] for t, v in dv]},
+                                         observed={'samples_ticks': got})
+            self.deval_compared = getattr(self, 'deval_compared', 0) + 1
         ts = [t for t, _ in out]
         if not out:
             return 'violation', dict(det, observed='empty result')
@@ -158,14 +169,6 @@ class C04(Check):
             return 'violation', dict(det, observed=diff)
         if dense.compare_ticks(spec, ref, t0, end) is not None:
             return 'model-vs-spec', dict(det, note='the naive evaluator Dn disagrees with the tick semantics rhoZ', dn=ref)
-        # untimed fragment: the implementation-layer model deval (DenseEval.v, proved against rhoZ) must return the same list
-        if len(mlines) > 2 and mlines[2].startswith('DEVAL') and mlines[2] != 'DEVAL NONE':
-            dv = [[int(x.split(':')[0]), fml.parse_val(x.split(':')[1])] for x in mlines[2].split()[1:]]
-            got = [[t, v] for t, v in out if t != math.inf]
-            if [[float(t), float(v)] for t, v in dv] != [[float(t), float(v)] for t, v in got]:
-                return 'violation', dict(det, kind='list', expected={'source': 'DenseEval.deval: the sample list the visitors build (untimed fragment)', 'samples_ticks': [[t, fml.val_sx(v)] for t, v in dv]},
-                                         observed={'samples_ticks': got})
-            self.deval_compared = getattr(self, 'deval_compared', 0) + 1
         return 'ok', None
 
     def signature(self, c, detail):
@@ -176,6 +179,9 @@ class C04(Check):
         late = any(c['sigs'][i][0][0] != 0 for i in used if i < len(c['sigs']))
         late_timed = any(c['sigs'][i][0][0] != 0 for i in timed_vars(c['f']) if i < len(c['sigs']))
         sig['shape'] = 'late_start_bounded' if late_timed else ('late_start' if late else 'start_at_0')
+        if isinstance(detail, dict) and detail.get('kind') == 'list':
+            # the sample list differs from the model of the visitor: never the known finding, whatever the signals look like
+            sig['shape'] = 'list_differs_from_visitor_model'
         return sig
 
     def nontrivial(self, c):
@@ -194,7 +200,7 @@ class C04(Check):
         return Check.features(self, c)
 
     def extra_evidence(self):
-        return {'lists_compared_with_the_untimed_visitor_model': getattr(self, 'deval_compared', 0)}
+        return {'lists_compared_with_the_visitor_model': getattr(self, 'deval_compared', 0)}
 
     def describe(self, c):
         if 'merge' in c:
